@@ -611,6 +611,9 @@ def campaign(prop_id, tier, seed):
     if pre:
         coverage.update(pre.get("coverage", {}))
         cov_samples += pre.get("samples", [])[:2]
+    if not cov_samples and failures:
+        # the random campaign is skipped when the deterministic part already failed: the failing case is the sample then
+        cov_samples.append(failures[0].get("case"))
     wall = time.time() - t0
     write_evidence(prop_id, tier, seed, coverage, wall, violations, prop.ASSUMPTIONS)
 
